@@ -323,7 +323,7 @@ func genLoopDL(r *Rng, idx int, tier string, step func(op string) string) {
 				absorb(peers, step(fmt.Sprintf("msg p=%d t=interested", p.k)))
 			}
 			i := r.Intn(l.numPieces() + 1)
-			absorb(peers, step(fmt.Sprintf("msg p=%d t=request i=%d b=%d l=%d", p.k, i, r.Pick(0, 0, 1, l.pl/2), r.Pick(1, 16, l.pl, 16384))))
+			absorb(peers, step(fmt.Sprintf("msg p=%d t=request i=%d b=%d l=%d", p.k, i, r.Pick(0, 0, 1, l.pl/2), r.Pick(1, 16, min(l.pl, 16384), 16384))))
 			continue
 		}
 		if !p.unchoked && r.Chance(60) {
